@@ -148,6 +148,8 @@ def main(pid, tier, seed, replay_path=None):
     try:
         ri = 0
         sample = range(len(queries)) if tier == "thorough" else [i for i in range(len(queries)) if i % 3 == 0]
+        summary_evals = 0
+        update_evals = 0
         # index of the first record of each query in recs
         starts, acc = [], 0
         for vs in variants:
@@ -179,6 +181,19 @@ def main(pid, tier, seed, replay_path=None):
             if not srv.alive():
                 fails.append(("server process died (exit %s)" % srv.exit_status(), qs_of(kind, full)))
                 srv = l3.Server(binary, cache, stub.port)
+            if kind == "route":
+                # /v2/summary takes the same parameters through the same factory: same classification, except that a request
+                # without routing is answered status success (0 routes)
+                sqs = qs_of(kind, full).replace("/v2/route?", "/v2/summary?", 1)
+                st2, hd2, body2 = srv.get(sqs, timeout=20)
+                got2 = parse_http("summary", st2, hd2, body2)
+                l3_evals += 1
+                summary_evals += 1
+                if got2 not in allowed:
+                    fails.append(("/v2/summary response %r is not the documented classification %s of this request" % (got2, sorted(allowed)), sqs))
+                if not srv.alive():
+                    fails.append(("server process died (exit %s)" % srv.exit_status(), sqs))
+                    srv = l3.Server(binary, cache, stub.port)
         # time extremes on an otherwise valid query: must be answered and must not kill the process
         for t in [0, 1, 3599, 3600, 86399, 86400, 115199, 115200, 115201, 118799, 118800, 200000, 2147483647]:
             for tt in (0, 1):
@@ -215,6 +230,36 @@ def main(pid, tier, seed, replay_path=None):
         l3_evals += 1
         if st is None:
             fails.append(("/updateCache without names got no answer", "/updateCache"))
+        # every documented cache name alone and next to an unknown one, every alias of the parameter, an extra unknown parameter:
+        # answered with the success object NAMING what was sent.  A separate server: refreshing one upstream collection alone
+        # leaves the others holding references into the replaced one (DESIGN 0.4), so no routing request follows here.
+        srv.stop()
+        srv = l3.Server(binary, cache, stub.port)
+        ureqs = [("names", [n]) for n in known] + [("names", [n, "foo"]) for n in known[:6]] + [("names", ["foo", n]) for n in known[5:]] + \
+                [(alias, ["schedules"]) for alias in ("caches", "cache_names", "name", "cache", "cache_name")] + [("names", ["agencies", "services"]), ("names", ["lines", "paths", "schedules"])]
+        for (key, names) in ureqs:
+            for extra in ("", "&foo=bar"):
+                qs = "/updateCache?%s=%s%s" % (key, ",".join(names), extra)
+                st, hd, body = srv.get(qs, timeout=60)
+                l3_evals += 1
+                update_evals += 1
+                try:
+                    j = json.loads(body.decode()) if st is not None else None
+                except Exception:
+                    j = None
+                if st is None or j is None:
+                    fails.append(("%s got no well-formed answer" % qs, qs))
+                elif j.get("status") != "success":
+                    fails.append(("%s answered status %r (a known cache name was given)" % (qs, j.get("status")), qs))
+                else:
+                    named = [x for x in str(j.get("cache_names", "")).split(",") if x]
+                    sent_known = [n for n in names if n in known]
+                    if [x for x in named if x in known] != sent_known or any(x not in names for x in named):
+                        fails.append(("%s: the success object names %r, sent %r" % (qs, j.get("cache_names"), names), qs))
+                nontriv.add(qs)
+                if not srv.alive():
+                    fails.append(("/updateCache kills the server", qs))
+                    srv = l3.Server(binary, cache, stub.port)
     finally:
         srv.stop()
     # not-ready data: every endpoint answers data_error with the code naming the missing collection
